@@ -28,6 +28,8 @@ class Clock(object):
         self.record = record
         self.events = []
         self.lock_results = []
+        self.on_lock = None     # callable(clock, name, acquired) right after an acquire attempt
+        self.on_unlock = None   # callable(clock, name) right before a release
         self.log_path = log_path
         self.count_reads = count_reads
         self.open_files = {}   # id(CountingFile) -> CountingFile
@@ -136,10 +138,15 @@ class CountingLock(object):
         ok = self.real.acquire(blocking)
         if self.clock.record:
             self.clock.lock_results.append((self.clock.n - 1, bool(ok)))
+        if self.clock.on_lock is not None:
+            self.clock.on_lock(self.clock, self.name, bool(ok))
         return ok
 
     def release(self):
         self.clock.tick("lock_release", self.name)
+        # (the monitor hears about it first: once the real lock is free another thread may be granted it at once)
+        if self.clock.on_unlock is not None:
+            self.clock.on_unlock(self.clock, self.name)
         return self.real.release()
 
 
